@@ -13,6 +13,8 @@ pub struct Plan {
     pub base_depth: usize,
     /// depth of the walk over the extended alphabet (empty / long labels and values, repeated labels)
     pub ext_depth: usize,
+    /// depth of the walks over the two tree-shape alphabets (16 batches each; 0 = skip)
+    pub shape_depth: usize,
     /// chain families (length, deviation bound)
     pub chains: Vec<(usize, usize)>,
     pub cache: CacheCfg,
@@ -67,6 +69,12 @@ pub fn run_plan_cfg<TC: ModelCfg, V: HistVisitor<TC>>(threads: usize, plan: &Pla
         let cfg = WalkCfg { alphabet: ext_alphabet::<TC>(), depth: plan.ext_depth, cache: plan.cache, par: plan.par, threads };
         walk::<TC, V>(&cfg, v);
     }
+    if plan.shape_depth > 0 {
+        for orient in 0..2 {
+            let cfg = WalkCfg { alphabet: shape_batches::<TC>(orient), depth: plan.shape_depth, cache: plan.cache, par: plan.par, threads };
+            walk::<TC, V>(&cfg, v);
+        }
+    }
     for &(n, k) in &plan.chains {
         let al = alphabet::<TC>();
         let hs = chain_histories(&al.labels[0], &al.labels[1], n, k);
@@ -82,9 +90,10 @@ pub fn run_plan<V: HistVisitor<W> + HistVisitor<E>>(threads: usize, plan: &Plan,
 
 pub fn plan_note(plan: &Plan) -> String {
     format!(
-        "H(L={{a,b,c}},V={{x,y}},d={}) over 27 batches; extended alphabet (empty/300B label, empty/1KiB value, repeated labels) depth {}; chains (n,k)={:?}; both configurations; labels: {} / {}",
+        "H(L={{a,b,c}},V={{x,y}},d={}) over 27 batches; extended alphabet (empty/300B label, empty/1KiB value, repeated labels) depth {}; two tree-shape alphabets (16 batches over 4 labels forcing decompression with insertion below the pushed-down node, both orientations) depth {}; chains (n,k)={:?}; both configurations; labels: {} / {}",
         plan.base_depth,
         plan.ext_depth,
+        plan.shape_depth,
         plan.chains,
         alphabet::<W>().note,
         alphabet::<E>().note
